@@ -148,7 +148,7 @@ func runC10(e *Env) {
 //
 //go:norace
 func runC11(e *Env) {
-	cfg := WCfg{Entries: allEntries, CtxModes: []int{CtxBackground, CtxNeverDone}, CloseMode: 1, Closers: 1}
+	cfg := WCfg{Entries: allEntries, CtxModes: []int{CtxBackground, CtxNeverDone}, CloseMode: 1, Closers: 1, ReaderChunk: 256}
 	cfg.Chan = e.drawChan(true, []int{2, 1, 8})
 	cfg.Writers = e.P(3)
 	cfg.PerWriter = 1 + e.P(2)
